@@ -377,4 +377,75 @@ theorem resolve_members (env : Env) (fuel : Nat) (root : Mod) (scope : List Stmt
   obtain ⟨kind, chain, hd, _, hm⟩ := resolve_chain env fuel root scope t stack y ht h
   exact ⟨kind, chain, hd, hm⟩
 
+/-! ## Non-vacuity: concrete schemas on which the hypotheses of the theorems hold
+
+The environments are written out (registry, include links) instead of being computed by `Env.of`,
+so that the kernel can evaluate the examples; the theorems hold for every environment. -/
+namespace Ex
+/-- statement in file `f` -/
+def S (f kw arg : String) (l c : Nat) (subs : List Stmt) : Stmt := Stmt.mk kw true arg f l c subs
+
+/-! Shadowing at three scopes: module, container, list all declare `t`. -/
+def ty : Stmt := S "m.yang" "type" "t" 5 20 []
+def leaf : Stmt := S "m.yang" "leaf" "x" 5 10 [ty]
+def tdL : Stmt := S "m.yang" "typedef" "t" 4 10 [S "m.yang" "type" "int32" 4 20 []]
+def lst : Stmt := S "m.yang" "list" "l" 4 5 [tdL, leaf]
+def tdC : Stmt := S "m.yang" "typedef" "t" 3 10 [S "m.yang" "type" "int16" 3 20 []]
+def tyC : Stmt := S "m.yang" "type" "p:t" 3 60 []
+def leafC : Stmt := S "m.yang" "leaf" "y" 3 50 [tyC]
+def con : Stmt := S "m.yang" "container" "c" 3 1 [tdC, leafC, lst]
+def tdM : Stmt := S "m.yang" "typedef" "t" 2 10 [S "m.yang" "type" "int8" 2 20 []]
+def tyM : Stmt := S "m.yang" "type" "t" 6 20 []
+def leafM : Stmt := S "m.yang" "leaf" "z" 6 10 [tyM]
+def m : Stmt := S "m.yang" "module" "m" 1 1 [S "m.yang" "prefix" "p" 1 10 [], tdM, con, leafM]
+def mM : Mod := ⟨0, m⟩
+def env : Env := { reg := { mods := [mM], modules := [("m", 0)] }, link := {}, dict := [], fuel := 10 }
+
+example : (match lookup env mM [leaf, lst, con, m] ty with
+    | .typedef _ r => r.td.line == 4 && r.scope.map (·.line) == [4, 3, 1] | _ => false) = true := by decide
+example : (match lookup env mM [leafC, con, m] tyC with
+    | .typedef _ r => r.td.line == 3 && r.scope.map (·.line) == [3, 1] | _ => false) = true := by decide
+example : (match lookup env mM [leafM, m] tyM with
+    | .typedef _ r => r.td.line == 2 && r.scope.map (·.line) == [1] | _ => false) = true := by decide
+example : (resolveTypeF env 10 mM [leaf, lst, con, m] ty []).errs = [] ∧
+    ((resolveTypeF env 10 mM [leaf, lst, con, m] ty []).ty.map (·.kind)) = some "int32" := by decide
+
+/-! A chain of depth 3 across an import (`a` imports `b` as `q`; `b` includes submodule `bs`). -/
+def t1 : Stmt := S "bs.yang" "typedef" "t1" 2 1
+  [S "bs.yang" "type" "string" 2 10 [S "bs.yang" "pattern" "p1" 2 20 []], S "bs.yang" "units" "u1" 2 30 [], S "bs.yang" "default" "d1" 2 40 []]
+def bs : Stmt := S "bs.yang" "submodule" "bs" 1 1 [S "bs.yang" "belongs-to" "b" 1 10 [S "bs.yang" "prefix" "pb" 1 20 []], t1]
+def t2 : Stmt := S "b.yang" "typedef" "t2" 3 1
+  [S "b.yang" "type" "t1" 3 10 [S "b.yang" "pattern" "p2" 3 20 []], S "b.yang" "default" "d2" 3 40 []]
+def b : Stmt := S "b.yang" "module" "b" 1 1 [S "b.yang" "prefix" "pb" 1 10 [], S "b.yang" "include" "bs" 2 1 [], t2]
+def t3 : Stmt := S "a.yang" "typedef" "t3" 3 1 [S "a.yang" "type" "q:t2" 3 10 [S "a.yang" "pattern" "p3" 3 20 []]]
+def tyA : Stmt := S "a.yang" "type" "t3" 4 10 [S "a.yang" "pattern" "p1" 4 20 []]
+def leafA : Stmt := S "a.yang" "leaf" "l" 4 1 [tyA]
+def a : Stmt := S "a.yang" "module" "a" 1 1
+  [S "a.yang" "prefix" "pa" 1 10 [], S "a.yang" "import" "b" 2 1 [S "a.yang" "prefix" "q" 2 10 []], t3, leafA]
+def mA : Mod := ⟨0, a⟩
+def env2 : Env :=
+  { reg := { mods := [mA, ⟨1, b⟩, ⟨2, bs⟩], modules := [("a", 0), ("b", 1)], subModules := [("bs", 2)] },
+    link := { visited := [0, 1, 2], linked := [(1, 0)] }, dict := [], fuel := 10 }
+
+example : (resolveTypeF env2 10 mA [leafA, a] tyA []).errs = [] := by decide
+example : (match (resolveTypeF env2 10 mA [leafA, a] tyA []).ty with
+    | some y => y.kind == "string" && y.name == "t3" && y.units == "u1" && y.hasDefault && y.default == "d2" &&
+        y.pattern == ["p1", "p2", "p3"]
+    | none => false) = true := by decide
+
+/-! Unknown names, unknown prefixes and cyclic definitions are errors. -/
+def cyA : Stmt := S "c.yang" "typedef" "a" 2 1 [S "c.yang" "type" "b" 2 10 []]
+def cyB : Stmt := S "c.yang" "typedef" "b" 3 1 [S "c.yang" "type" "union" 3 10 [S "c.yang" "type" "string" 3 20 [], S "c.yang" "type" "a" 3 30 []]]
+def tyCy : Stmt := S "c.yang" "type" "a" 4 10 []
+def tyUn : Stmt := S "c.yang" "type" "nosuch" 5 10 []
+def tyPf : Stmt := S "c.yang" "type" "zz:a" 6 10 []
+def c : Stmt := S "c.yang" "module" "c" 1 1 [S "c.yang" "prefix" "pc" 1 10 [], cyA, cyB,
+  S "c.yang" "leaf" "l1" 4 1 [tyCy], S "c.yang" "leaf" "l2" 5 1 [tyUn], S "c.yang" "leaf" "l3" 6 1 [tyPf]]
+def mC : Mod := ⟨0, c⟩
+def env3 : Env := { reg := { mods := [mC], modules := [("c", 0)] }, link := {}, dict := [], fuel := 10 }
+example : ((resolveTypeF env3 10 mC [S "c.yang" "leaf" "l1" 4 1 [tyCy], c] tyCy []).errs.map (·.cls)) = ["cycle"] := by decide
+example : ((resolveTypeF env3 10 mC [S "c.yang" "leaf" "l2" 5 1 [tyUn], c] tyUn []).errs.map (·.cls)) = ["unknown-type"] := by decide
+example : ((resolveTypeF env3 10 mC [S "c.yang" "leaf" "l3" 6 1 [tyPf], c] tyPf []).errs.map (·.cls)) = ["unknown-prefix"] := by decide
+end Ex
+
 end Goyang.Props.C09
